@@ -8,6 +8,7 @@ symbolic stage count are discharged by z3 and cross-checked by the cvc5 binary o
 """
 import ast
 import inspect
+import logging
 import math
 import os
 import subprocess
@@ -347,8 +348,135 @@ def body_accumulate(n):
     return body
 
 
+class _StatusFile(object):
+    """Stands for the status file of the experiment: records what CheckStatus reports."""
+
+    def __init__(self):
+        self.total = None
+        self.stage_progress = None
+
+    def setTotalProgress(self, v):
+        self.total = v
+
+    def totalProgress(self):
+        return self.total
+
+    def setStageProgress(self, v):
+        self.stage_progress = v
+
+    def stageProgress(self):
+        return self.stage_progress if self.stage_progress is not None else 0.0
+
+    def stageState(self):
+        return 'running'
+
+    def update(self):
+        pass
+
+    def __getattr__(self, name):
+        if name.startswith('set'):
+            return lambda *a, **k: None
+        raise AttributeError(name)
+
+
+def body_controller(n):
+    """The real StatusMonitor.run/CheckStatus + compute_stage_status on the real Controller.get_stages_finished /
+    get_stages_in_transit / get_stage_status / get_components_in_stage / initialise, for a workflow that starts (or is
+    restarted) at any stage, with every component of the remaining stages finished-and-observed, finished-not-yet-
+    observed, running or failed."""
+    import threading
+    import types
+    import networkx
+    import experiment.model.codes as codes
+    import experiment.runtime.monitor as monitor
+    from harness.rt_stubs import new_controller, HComp, HEngine, FakeJob, Patch, StubTracker
+
+    def body(ctx):
+        start = ctx.choice('starting_stage', list(range(n)))
+        cur = ctx.choice('current_stage', list(range(start, n)))
+        wkind = ctx.choice('weights', ['equal', 'front', 'back'])
+        if wkind == 'equal':
+            ks = [1000 // n] * n
+            ks[-1] += 1000 - sum(ks)
+        elif wkind == 'front':
+            ks = [1000 - 100 * (n - 1)] + [100] * (n - 1)
+        else:
+            ks = [0] * (n - 1) + [1000]
+        weights = [k / 1000.0 for k in ks]
+        g = networkx.DiGraph()
+        comps = {}
+        for i in range(n):
+            for j in range(2 if i % 2 == 0 else 1):
+                job = FakeJob(i, 'c%d' % j)
+                comp = HComp(job, HEngine(job))
+                comps[job.reference] = comp
+                g.add_node(job.reference, stageIndex=i, component=(lambda c=comp: c))
+        ctl = new_controller()
+        ctl.experiment = types.SimpleNamespace(experimentGraph=types.SimpleNamespace(graph=g, _placeholders={}, _documents={}),
+                                               numStages=lambda: n)
+        ctl._stageStates = {i: types.SimpleNamespace(state=codes.RUNNING_STATE) for i in range(n)}
+        ctl.currentStage = None
+        ctl.generate_status_report_for_nodes = lambda *a, **k: ''
+        stages = [types.SimpleNamespace(index=i, name='stage%d' % i, referenceName='stage%d' % i) for i in range(n)]
+        # the real restart bookkeeping: stages before the starting one are marked finished by Controller.initialise
+        ctl.initialise(stages[start], None)
+        ctl.currentStage = stages[cur]
+        all_completed = True
+        for ref, comp in comps.items():
+            i = comp.specification.stageIndex
+            if i < start:
+                continue
+            if i > cur:
+                ph = ctx.choice('phase:' + ref, ['running', 'finished+observed'])
+            else:
+                ph = ctx.choice('phase:' + ref, ['finished+observed', 'finished', 'running', 'failed+observed'])
+            if ph in ('finished', 'finished+observed'):
+                comp.controllerState = codes.FINISHED_STATE
+            elif ph == 'failed+observed':
+                comp.controllerState = codes.FAILED_STATE
+            else:
+                comp.controllerState = codes.RUNNING_STATE
+            if ph.endswith('+observed'):
+                ctl.comp_done.add(ref)
+            if ph != 'finished+observed':
+                all_completed = False
+        mon = object.__new__(output.StatusMonitor)
+        mon.log = logging.getLogger('verif')
+        mon.mtx_compute_status = threading.RLock()
+        mon._status_database = None
+        mon.report_components = False
+        mon.last_status_report = None
+        mon.commands = {'stage%d' % i: None for i in range(n)}
+        mon.stageWeights = list(weights)
+        mon.statusFile = _StatusFile()
+        mon.repeatInterval = 30.0
+        mon._condition_stopped = threading.Event()
+        mon.exceptionTracker = StubTracker(lambda: True)
+        exp = types.SimpleNamespace(_stages=stages, instanceDirectory=types.SimpleNamespace(mtx_output=threading.RLock()))
+        mon.weakExperiment = lambda: exp
+        with Patch() as p:
+            p.set(monitor, 'CreateMonitor', lambda interval, action, cancelEvent=None, name=None, **kw: (lambda: action(True)))
+            mon.run(ctl)
+        total = mon.statusFile.total
+        detail = {'stages': n, 'starting_stage': start, 'current_stage': cur, 'weights': weights, 'total': total,
+                  'finished': ctl.get_stages_finished(), 'in_transit': ctl.get_stages_in_transit()}
+        ctx.witness('status_check_ran')
+        ctx.check(total is not None, 'the status check reports a total progress', detail)
+        tol = n * EPS
+        ctx.check(0.0 <= total <= 1.0 + tol, 'total progress lies in [0, 1] (tolerance n*2^-52)', detail)
+        expected_done = sum(weights[i] for i in range(start))
+        ctx.check(total >= expected_done - tol, 'stages skipped by a restart count as completed', detail)
+        if all_completed:
+            ctx.witness('all_completed_after_restart' if start > 0 else 'all_completed')
+            ctx.check(abs(total - 1.0) <= tol, 'total progress is one once every stage has completed', detail)
+        return None
+    return body
+
+
 def factory(param):
     k = param['kind']
+    if k == 'controller':
+        return body_controller(param['n'])
     if k == 'inject':
         return body_inject(param['n'], param['wmax'], param['special'], param.get('k3', False))
     if k == 'monitor':
@@ -552,7 +680,10 @@ def main(tier, seed, only=None):
     rep.functions = ['FlowIR.inject_default_values (stage-weight block, lifted from its AST)',
                      'output.StatusMonitor.__init__ (weight block, lifted)',
                      'output.StatusMonitor.CheckStatus (accumulation loops, lifted)',
-                     'control.Controller.get_stage_status (progress expression, lifted)']
+                     'control.Controller.get_stage_status (progress expression, lifted)',
+                     'output.StatusMonitor.run / CheckStatus / compute_stage_status (executed as they are, on a stub experiment)',
+                     'control.Controller.initialise / get_stages_finished / get_stages_in_transit / get_stage_status / '
+                     'get_components_in_stage / get_nodes_in_stage / node_is_active (executed as they are)']
     N = 2 if tier == 'quick' else 3
     rep.bounds = {'stages_unrolled_symbolic_weights': N, 'weight_domain': 'any double with |w| <= 4.0, plus NaN and +-inf (free-double variant); k/1000.0 with integer |k| <= 1000 (three-decimal variant, uses lemma L1 as a rewrite rule); '
                   'entries given / missing / no stage-weight key',
@@ -568,7 +699,8 @@ def main(tier, seed, only=None):
     rep.explanation = ('statements lifted from the AST of the real functions on every run and executed over z3 Float64/BitVec terms '
                        '(symx Explorer decides path feasibility and assertions with z3); lemmas over a symbolic stage count '
                        'discharged by z3 and cross-checked by cvc5')
-    rep.required_witnesses = ['inject_ran', 'kept_given_weights', 'monitor_ran', 'accumulate_ran', 'all_finished']
+    rep.required_witnesses = ['inject_ran', 'kept_given_weights', 'monitor_ran', 'accumulate_ran', 'all_finished',
+                              'status_check_ran', 'all_completed', 'all_completed_after_restart']
     try:
         validate_translator(rep)
         finish_lemmas = lemmas(rep, tier)
@@ -588,6 +720,16 @@ def main(tier, seed, only=None):
                          query_timeout_ms=120000 if tier == 'quick' else 900000,
                          deadline_s=600 if tier == 'quick' else 5400, nproc=12, backend='cvc5')
     rep.add(s)
+    if not only or 'controller' in only:
+        NC = 3 if tier == 'quick' else 4
+        cparams = [{'kind': 'controller', 'n': n, 'name': 'controller-%d' % n} for n in range(1, NC + 1)]
+        s2 = explore_parallel('status-check-on-controller', factory, cparams, signature=signature, seed=seed, chunk=50,
+                              validate=False)
+        rep.add(s2)
+        rep.bounds['status check on the controller'] = (
+            '%d stages or fewer (2 components in even stages, 1 in odd ones); started or restarted at any stage, any current stage '
+            'at or after it; each component of a reached stage finished+observed / finished / running / failed+observed, of a later stage '
+            'running / finished+observed; weights equal, front-loaded or all on the last stage' % NC)
     finish_lemmas()
     return rep.finish()
 
